@@ -93,7 +93,7 @@ pub fn machines(opts: &Opts) -> Vec<MCfg> {
         Tier::Quick => {
             out.push(mk(
                 "pool/depth3",
-                Bounds { builds: 2, passes: 2, clears: 1, drops: 1, clones: 1, flags: 1, fetches: 1, adopts: 0, updates: 1, depth: 3 },
+                Bounds { builds: 2, passes: 2, clears: 1, drops: 1, clones: 1, flags: 1, fetches: 1, adopts: 0, updates: 1, depth: 3, refusals: 1 },
                 ops.clone(),
                 5,
                 true,
@@ -101,7 +101,7 @@ pub fn machines(opts: &Opts) -> Vec<MCfg> {
             // views and clones held across an optimizer update
             out.push(mk(
                 "views-update/depth4",
-                Bounds { builds: 2, passes: 1, clears: 0, drops: 1, clones: 1, flags: 1, fetches: 1, adopts: 0, updates: 1, depth: 4 },
+                Bounds { builds: 2, passes: 1, clears: 0, drops: 1, clones: 1, flags: 1, fetches: 1, adopts: 0, updates: 1, depth: 4, refusals: 0 },
                 vec![OpK::Reshape(vec![6]), OpK::Mul],
                 5,
                 true,
@@ -117,14 +117,14 @@ pub fn machines(opts: &Opts) -> Vec<MCfg> {
         Tier::Thorough => {
             out.push(mk(
                 "pool/depth4",
-                Bounds { builds: 3, passes: 2, clears: 1, drops: 1, clones: 1, flags: 1, fetches: 1, adopts: 1, updates: 2, depth: 4 },
+                Bounds { builds: 3, passes: 2, clears: 1, drops: 1, clones: 1, flags: 1, fetches: 1, adopts: 1, updates: 2, depth: 4, refusals: 1 },
                 ops.clone(),
                 6,
                 true,
             ));
             out.push(mk(
                 "views-update/depth5",
-                Bounds { builds: 2, passes: 2, clears: 0, drops: 1, clones: 1, flags: 1, fetches: 1, adopts: 0, updates: 2, depth: 5 },
+                Bounds { builds: 2, passes: 2, clears: 0, drops: 1, clones: 1, flags: 1, fetches: 1, adopts: 0, updates: 2, depth: 5, refusals: 0 },
                 vec![OpK::Reshape(vec![6]), OpK::Mul],
                 5,
                 true,
@@ -137,7 +137,7 @@ pub fn machines(opts: &Opts) -> Vec<MCfg> {
             ));
             out.push(mk(
                 "pool/depth3-unmerged",
-                Bounds { builds: 2, passes: 2, clears: 1, drops: 1, clones: 1, flags: 1, fetches: 1, adopts: 0, updates: 1, depth: 3 },
+                Bounds { builds: 2, passes: 2, clears: 1, drops: 1, clones: 1, flags: 1, fetches: 1, adopts: 0, updates: 1, depth: 3, refusals: 0 },
                 ops.clone(),
                 5,
                 false,
